@@ -1,4 +1,5 @@
 import OdcGeo.Model.C16
+import OdcGeo.Model.C16Link
 import OdcGeo.Spec.PySlice
 namespace OdcGeo.C16.Drv
 open OdcGeo OdcGeo.IO OdcGeo.C16
@@ -31,6 +32,28 @@ def fmtBBoxQ (bb : BBox Rat) : String :=
   s!"{fmtRat bb.left};{fmtRat bb.bottom};{fmtRat bb.right};{fmtRat bb.top};{fmtCrs bb.crs}"
 def fmtBBoxZ (bb : BBox Int) : String :=
   s!"{bb.left};{bb.bottom};{bb.right};{bb.top};{fmtCrs bb.crs}"
+
+/-- double token: rational, `inf`, `-inf`, `nan` -/
+def parsePyF? (s : String) : Option PyF :=
+  if s = "nan" then some .nan else if s = "inf" then some .pinf else if s = "-inf" then some .ninf
+  else (parseRat? s).map PyF.fin
+
+def fmtPyF : PyF → String
+  | .fin q => fmtRat q
+  | .pinf => "inf"
+  | .ninf => "-inf"
+  | .nan => "nan"
+
+def parseBBoxF? (s : String) : Option (BBox PyF) :=
+  match s.splitOn ";" with
+  | [l, b, r, t, crs] => do
+    let l ← parsePyF? l; let b ← parsePyF? b; let r ← parsePyF? r; let t ← parsePyF? t
+    let crs ← parseCrs? crs
+    pure ⟨l, b, r, t, crs⟩
+  | _ => none
+
+def fmtBBoxF (bb : BBox PyF) : String :=
+  s!"{fmtPyF bb.left};{fmtPyF bb.bottom};{fmtPyF bb.right};{fmtPyF bb.top};{fmtCrs bb.crs}"
 
 def parsePt? (s : String) : Option (Rat × Rat) :=
   match s.splitOn ";" with
@@ -73,6 +96,43 @@ def run (args : List String) : Option String :=
   | ["bbtr", a, A] => do
     let a ← parseBBox? a; let A ← parseAff? A
     pure (fmtBBoxQ (a.transform A))
+  | ["bbuf", bbs] => do
+    let bbs ← parseList? parseBBoxF? bbs
+    pure (fmtRes fmtBBoxF (bboxUnion bbs))
+  | ["bbif", bbs] => do
+    let bbs ← parseList? parseBBoxF? bbs
+    pure (fmtRes fmtBBoxF (bboxIntersection bbs))
+  | ["bbbuf", a, xb, yb] => do
+    let a ← parseBBox? a; let xb ← parseRat? xb; let yb ← parseOpt? parseRat? yb
+    pure (fmtBBoxQ (a.buffered xb yb))
+  | ["bbshape", a] => do
+    let a ← parseBBox? a
+    pure s!"{a.shape.1} {a.shape.2} {fmtRat a.spanX} {fmtRat a.spanY}"
+  | ["bbfrompts", p1, p2, crs] => do
+    let p1 ← parsePt? p1; let p2 ← parsePt? p2; let crs ← parseCrs? crs
+    pure (fmtBBoxQ (BBox.fromPoints p1 p2 crs))
+  | ["bbfromtr", ny, nx, A, crs] => do
+    let ny ← parseInt? ny; let nx ← parseInt? nx; let A ← parseAff? A; let crs ← parseCrs? crs
+    pure (fmtBBoxQ (BBox.fromTransform ny nx A crs))
+  | ["pad", g, px, py] => do
+    let g ← parseGeoBox? g; let px ← parseInt? px; let py ← parseOpt? parseInt? py
+    pure (fmtGeoBox (g.pad px py))
+  | ["cropunion", a, b] => do
+    let a ← parseGeoBox? a; let b ← parseGeoBox? b
+    pure (fmtRes fmtGeoBox (cropUnionBack a b tolPix))
+  | ["cropoverlap", a, b] => do
+    let a ← parseGeoBox? a; let b ← parseGeoBox? b
+    pure (fmtRes fmtGeoBox (cropOverlap a b tolPix))
+  | ["nbr", which, g] => do
+    let g ← parseGeoBox? g
+    match which with
+    | "right" => pure (fmtGeoBox g.right)
+    | "left" => pure (fmtGeoBox g.left)
+    | "top" => pure (fmtGeoBox g.top)
+    | "bottom" => pure (fmtGeoBox g.bottom)
+    | "flipx" => pure (fmtGeoBox g.flipx)
+    | "flipy" => pure (fmtGeoBox g.flipy)
+    | _ => none
   | ["ptr", a, b] => do
     let a ← parseGeoBox? a; let b ← parseGeoBox? b
     pure (fmtRes (fun (x, y) => s!"{fmtRat x} {fmtRat y}") (pixelTranslation a b))
